@@ -476,7 +476,7 @@ def _r6(chk, repo):
         bad = []
         for a_, b_ in itertools.product((True, False), repeat=2):
             val = {_ct(f"{x}.shape!={shp}"): a_, _ct(f"{x}.shape=={shp}"): not a_, _ct(f"{x}.shape[:-1]!={shp}"): b_, _ct(f"{x}.shape[:-1]=={shp}"): not b_}
-            eff = method_effects(repo, cont, f, valuation=val)
+            eff = method_effects(repo, cont, f, valuation=val, level=2)          # a shared private helper is inlined
             for e in eff:
                 if a_ and b_:
                     if e["kind"] != "raise":
